@@ -159,8 +159,9 @@ var Int = NewScalar(ScalarConfig{
 	ParseLiteral: func(valueAST ast.Value) interface{} {
 		switch valueAST := valueAST.(type) {
 		case *ast.IntValue:
-			if intValue, err := strconv.Atoi(valueAST.Value); err == nil {
-				return intValue
+			// same 32-bit range as coerceInt applies to variable values
+			if intValue, err := strconv.ParseInt(valueAST.Value, 10, 32); err == nil {
+				return int(intValue)
 			}
 		}
 		return nil
